@@ -143,7 +143,7 @@ def normalize_rr(log):
 # ------------------------------------------------------------------------------------------------
 # end to end
 # ------------------------------------------------------------------------------------------------
-def build_dataset(root: Path, fmt: str, comp: str, eps: int, plan, hashes=("sha256",)):
+def build_dataset(root: Path, fmt: str, comp: str, eps: int, plan, hashes=None):
     """plan: list of sessions; a session is {"sub": "."|"a"|"a/b", "writes": [(split_idx, n), ...]} executed in order.
     Returns (dataset, written ids per split)."""
     from sedpack.io.dataset_filler import DatasetFiller
